@@ -104,6 +104,7 @@ class FileAllocationTable:
             if sector_link.end:
                 break
             current_sector = sector_link.next
+            loop_cnt += 1
 
         if loop_cnt >= self.size:
             raise InvalidFatDefinition("Broken FAT. Loop? Sector path exceeds size?")
